@@ -592,7 +592,12 @@ def do_check(check, tier, seed):
             cls_, _, _, dd, _ = replay_plan(bins[key], pf, ".gate-dead-%s-%s-%d.json" % (check, key, d["i"]), valgrind=vgf)
             crash = [c for c in cls_ if c[1].startswith("crash-")]
             if not crash:
-                machinery_errors.append("dead run %s/%d does not die again when replayed in a fresh process" % (key, d["i"]))
+                if check == "C09":
+                    machinery_errors.append("dead run %s/%d does not die again when replayed in a fresh process" % (key, d["i"]))
+                else:
+                    # a death that does not replay is undefined behaviour somewhere (C09's
+                    # business); this check can conclude nothing from it
+                    aborted_foreign += 1
                 continue
             if check == "C18":
                 c2 = copy.deepcopy(pf)
